@@ -19,7 +19,8 @@ TEXT = {
          "Lean theorem (invariant by induction over edit histories) + differential check on edit histories"),
  "C07": ("Theorems on the executable store model: well-formedness (names/indices unique, name<->index maps exactly the payload pairs, _data keyed by clone names or the outlier key and equal to the payload sets, every data point in exactly one place) holds for the empty tree and is preserved by every edit operation under the side conditions of the sampler grammar, hence along every legal history (wf_step, wf_reachable); per-operation data accounting (data_conserved), subtree extraction = clade, subtree and data-point moves conserve the data multiset, labels partition the data. Graph shape (single parent, reachability) is structural in the model and is decided on the real rustworkx graph by the oracle. Correspondence: model vs real Tree after every op of generated histories; oracle: full well-formedness clause list on every live handle, and every sampler invocation (burn-in SMC, PG, subtree PG, data-point, prune-regraft, run-loop iteration; three proposals; outliers on/off) returns a well-formed tree on exactly the input data; retained path reproduces the input tree.",
          "Lean theorem (invariant by induction over edit histories) + differential check on edit histories and sampler invocations"),
- "C15": None,
+ "C15": ("Theorems on the store model and the trace-loop model: for every store satisfying the reachable invariants (WF, Full, CacheOK, Aligned; graph indices with arbitrary gaps) fromDict (toDict s) restores the same forest, names, indices, data map, last-added clone, labels and cached vectors, hence the same joint densities, and editing after a round trip is editing the original (roundtrip_edits_commute); the recorded iterations are the post-burn-in state followed by exactly the iterations i < num_iters with i % thin = 0, in order, cut only by the time limit (trace_schedule, trace_schedule_timed); every entry is built after relabelling and the concentration update, restores to a tree holding every data point once, and its recorded log_p_one is the fixed-root density under the recorded alpha (entry_after_update, entry_consistent, entry_data_complete). Correspondence/oracle: trees reached by edit histories round-tripped through dict, pickle, the gzip trace file and TreeHolder, then edited in lockstep; real traces from run_phyclone_chain and the CLI over a grid of run configurations, every entry recomputed.",
+         "Lean theorem (round trip, schedule, entry consistency) + differential check on round trips and real traces"),
  "C08": ("Theorems for all three proposals, every parent state and data point: reported probabilities sum to one, every placement is in the support with positive probability, the sampler draws each tree with exactly the reported probability, weights and proposal probabilities telescope to pOne*pdf along every path, parents are unique. Correspondence: log_p of every placement, exact distribution of sample() and particle weights vs the model; oracles: normalisation, sampled = reported, complete support, telescoping on random paths.",
          "Lean theorem + exact-distribution differential check"),
  "C09": ("Theorems for every tree with distinct data: the enumerated orders are exactly the compatible ones (sound, complete, no duplicates), the code's count equals their number, the sampler is uniform on them, the density is 1/count. Correspondence: exact distribution of the real sampler and log_pdf vs the model; brute force over all permutations as oracle.",
